@@ -13,9 +13,9 @@ Proof.
   - apply bytes_eqb_eq in E2. subst. rewrite bytes_eqb_refl in E1. discriminate.
 Qed.
 
-Lemma nonce_mismatch_spec a b : nonce_mismatch a b = negb (b =? a).
+Lemma nonce_mismatch_spec hn a b : nonce_mismatch true hn a b = negb hn || negb (b =? a).
 Proof.
-  unfold nonce_mismatch, cmp3.
+  unfold nonce_mismatch, cmp3. cbn [andb]. f_equal.
   destruct (Z.compare_spec a b) as [E|E|E]; cbn; destruct (b =? a) eqn:F; try reflexivity; lia.
 Qed.
 
@@ -42,50 +42,44 @@ Qed.
 
 (* RFC 3161: an attempt succeeds exactly on a reply that is delivered, granted, well signed, echoes the nonce and
    carries the digest of the signature value *)
-Lemma ts_do_rfc_ok q r : q_legacy q = false -> 0 <= r_status r ->
+Lemma ts_do_rfc_ok q r : q_legacy q = false ->
   is_ok (ts_do H q r) = genuine_bytes H q r.
 Proof.
-  intros Hleg Hst.
-  unfold ts_do, parse_response, sanity_check, genuine_bytes, delivered, granted, well_signed, echoes, imprint_bytes_match,
-    request_imprint.
-  rewrite Hleg. unfold do_parse_legacy, http_bad, resp_trailing, resp_denied, imprint_is_hashed.
+  intros Hleg.
+  unfold ts_do, parse_response, sanity_check, genuine_bytes, delivered, granted, well_signed, echoes, imprint_bytes_match.
+  rewrite Hleg. unfold do_parse_legacy, http_bad, resp_trailing, resp_denied.
   destruct (r_transport r); cbn [negb andb]; [|reflexivity].
   destruct (r_http r =? 200); cbn [negb andb]; [|reflexivity].
   destruct (r_parses r); cbn [negb andb]; [|reflexivity].
   destruct (r_rest r =? 0); cbn [negb andb]; [|reflexivity].
-  destruct (r_status r >? 1) eqn:Es.
+  destruct ((r_status r <? 0) || (r_status r >? 1)) eqn:Es.
   { assert (E : (r_status r =? 0) || (r_status r =? 1) = false) by lia. rewrite E. reflexivity. }
   assert (E : (r_status r =? 0) || (r_status r =? 1) = true) by lia. rewrite E. cbn [andb].
   unfold sanity_order. cbn [run_steps]. unfold sanity_step. cbn [Z.eqb Pos.eqb].
-  destruct (st_has_content (r_stamp r)); cbn [negb andb bind]; [|reflexivity].
+  unfold info_empty, content_len, has_nonce, nonce_val.
+  destruct (st_has_content (r_stamp r)); cbn [negb andb bind Z.eqb]; [|reflexivity].
   destruct (st_sig_ok (r_stamp r)); cbn [negb andb bind]; [|destruct (st_info_ok (r_stamp r)); reflexivity].
   destruct (st_info_ok (r_stamp r)); cbn [negb andb bind]; [|reflexivity].
-  destruct (st_nonce (r_stamp r)) as [n|]; cbn [bind]; [|reflexivity].
-  rewrite nonce_mismatch_spec. destruct (n =? q_nonce q); cbn [negb andb bind]; [|reflexivity].
+  rewrite nonce_mismatch_spec.
+  destruct (st_nonce (r_stamp r)) as [n|]; cbn [negb orb bind]; [|reflexivity].
+  destruct (n =? q_nonce q); cbn [negb andb bind]; [|reflexivity].
   unfold imprint_mismatch, request_imprint, imprint_is_hashed. rewrite Hleg. cbn [negb].
   destruct (bytes_eqb (st_hashed (r_stamp r)) (H (q_alg q) (q_sig q))); reflexivity.
 Qed.
 
-(* when exactly the RFC 3161 path panics: everything up to the nonce comparison passes and the token has no nonce *)
-Definition reaches_nonce_check (r : reply) : bool :=
-  delivered r && negb (resp_denied (r_status r)) && well_signed (r_stamp r).
-Lemma ts_do_rfc_panic q r p : q_legacy q = false ->
-  ts_do H q r = Panic p -> st_nonce (r_stamp r) = None /\ reaches_nonce_check r = true.
+(* no reply makes an attempt panic, in either style *)
+Lemma ts_do_no_panic q r p : ts_do H q r <> Panic p.
 Proof.
-  intros Hleg.
-  unfold ts_do, parse_response, sanity_check, reaches_nonce_check, delivered, well_signed.
-  rewrite Hleg. unfold do_parse_legacy, http_bad, resp_trailing.
-  destruct (r_transport r); cbn [negb andb]; [|discriminate].
-  destruct (r_http r =? 200); cbn [negb andb]; [|discriminate].
-  destruct (r_parses r); cbn [negb andb]; [|discriminate].
-  destruct (r_rest r =? 0); cbn [negb andb]; [|discriminate].
-  destruct (resp_denied (r_status r)); cbn [negb andb]; [discriminate|].
+  unfold ts_do, parse_response, parse_legacy, sanity_check.
+  destruct (negb (r_transport r)); [discriminate|]. destruct (http_bad (r_http r)); [discriminate|].
+  destruct (do_parse_legacy (q_legacy q)); [destruct (r_parses r); discriminate|].
+  destruct (negb (r_parses r)); [discriminate|]. destruct (resp_trailing (r_rest r)); [discriminate|].
+  destruct (resp_denied (r_status r)); [discriminate|].
   unfold sanity_order. cbn [run_steps]. unfold sanity_step. cbn [Z.eqb Pos.eqb].
-  destruct (st_has_content (r_stamp r)); cbn [negb andb bind]; [|discriminate].
-  destruct (st_sig_ok (r_stamp r)); cbn [negb andb bind]; [|discriminate].
-  destruct (st_info_ok (r_stamp r)); cbn [negb andb bind]; [|discriminate].
-  destruct (st_nonce (r_stamp r)) as [n|]; cbn [bind]; [|intros _; split; reflexivity].
-  destruct (nonce_mismatch (q_nonce q) n); cbn [bind]; [discriminate|].
+  destruct (st_has_content (r_stamp r) && st_sig_ok (r_stamp r)); cbn [bind]; [|discriminate].
+  destruct (info_empty (content_len (r_stamp r))); cbn [bind]; [discriminate|].
+  destruct (st_info_ok (r_stamp r)); cbn [bind]; [|discriminate].
+  destruct (nonce_mismatch _ _ _ _); cbn [bind]; [discriminate|].
   destruct (imprint_mismatch _ _); discriminate.
 Qed.
 
@@ -98,13 +92,6 @@ Proof.
   destruct (r_http r =? 200); cbn [negb andb]; [|reflexivity].
   destruct (r_parses r); reflexivity.
 Qed.
-Lemma ts_do_legacy_no_panic q r p : q_legacy q = true -> ts_do H q r <> Panic p.
-Proof.
-  intros Hleg. unfold ts_do, parse_legacy. rewrite Hleg. unfold do_parse_legacy.
-  destruct (negb (r_transport r)); [discriminate|]. destruct (http_bad (r_http r)); [discriminate|].
-  destruct (r_parses r); discriminate.
-Qed.
-
 (* ------------------------------------------------------------------ the failover loop *)
 
 Lemma ts_loop_ok q rs : forall i last t hits,
@@ -179,36 +166,35 @@ Proof. apply nth_error_In. Qed.
 (* ------------------------------------------------------------------ theorems about the client *)
 
 Theorem attached_only_if_genuine q rs t hits :
-  q_legacy q = false -> (forall r, In r rs -> 0 <= r_status r) ->
+  q_legacy q = false ->
   ts_client H q rs = (Ok t, hits) ->
   exists k r, nth_error rs k = Some r /\ t = r_stamp r /\ genuine_bytes H q r = true /\ hits = upto 0 (S k) /\
     forall j r', (j < k)%nat -> nth_error rs j = Some r' -> genuine_bytes H q r' = false.
 Proof.
-  intros Hleg Hst E. destruct (ts_client_ok _ _ _ _ E) as (k & r & Hn & Hd & Hh & Hb).
+  intros Hleg E. destruct (ts_client_ok _ _ _ _ E) as (k & r & Hn & Hd & Hh & Hb).
   exists k, r. repeat split; auto.
   - apply (ts_do_ok_stamp _ _ _ Hd).
-  - rewrite <- (ts_do_rfc_ok q r Hleg (Hst r (nth_error_In _ _ Hn))). rewrite Hd. reflexivity.
-  - intros j r' Hj Hnj. rewrite <- (ts_do_rfc_ok q r' Hleg (Hst r' (nth_error_In _ _ Hnj))). apply (Hb j r' Hj Hnj).
+  - rewrite <- (ts_do_rfc_ok q r Hleg). rewrite Hd. reflexivity.
+  - intros j r' Hj Hnj. rewrite <- (ts_do_rfc_ok q r' Hleg). apply (Hb j r' Hj Hnj).
 Qed.
 
 (* full strength (imprint algorithm label included) on the domain where authorities label the imprint honestly *)
 Theorem attached_only_if_genuine_full q rs t hits :
-  q_legacy q = false -> (forall r, In r rs -> 0 <= r_status r) ->
+  q_legacy q = false ->
   (forall r, In r rs -> imprint_alg_match q (r_stamp r) = true) ->
   ts_client H q rs = (Ok t, hits) ->
   exists k r, nth_error rs k = Some r /\ t = r_stamp r /\ genuine H q r = true /\ hits = upto 0 (S k) /\
     forall j r', (j < k)%nat -> nth_error rs j = Some r' -> genuine H q r' = false.
 Proof.
-  intros Hleg Hst Halg E.
-  destruct (attached_only_if_genuine q rs t hits Hleg Hst E) as (k & r & Hn & Ht & Hg & Hh & Hb).
+  intros Hleg Halg E.
+  destruct (attached_only_if_genuine q rs t hits Hleg E) as (k & r & Hn & Ht & Hg & Hh & Hb).
   exists k, r. repeat split; auto.
   - unfold genuine. rewrite Hg, (Halg r (nth_error_In _ _ Hn)). reflexivity.
   - intros j r' Hj Hnj. unfold genuine. rewrite (Hb j r' Hj Hnj). reflexivity.
 Qed.
 
 Theorem failover_in_order q rs :
-  q_legacy q = false -> (forall r, In r rs -> 0 <= r_status r) ->
-  (forall r, In r rs -> st_nonce (r_stamp r) <> None) ->     (* every token carries a nonce: no nil dereference *)
+  q_legacy q = false ->
   (forall r, In r rs -> r_ctx_dead r = false) ->             (* the caller's context stays alive *)
   rs <> [] ->
   match spec_client (genuine_bytes H q) rs 0 with
@@ -216,14 +202,52 @@ Theorem failover_in_order q rs :
   | (None, h) => exists e, ts_client H q rs = (Err e, h)
   end.
 Proof.
-  intros Hleg Hst Hnonce Hctx Hne.
+  intros Hleg Hctx Hne.
   assert (Hdom : forall r, In r rs -> no_panic q r = true /\ r_ctx_dead r = false).
   { intros r Hin. split; [|apply Hctx; exact Hin]. unfold no_panic.
-    destruct (ts_do H q r) as [s|e|p] eqn:D; try reflexivity.
-    destruct (ts_do_rfc_panic q r p Hleg D) as [Hnone _]. exfalso. apply (Hnonce r Hin Hnone). }
+    destruct (ts_do H q r) as [s|e|p] eqn:D; try reflexivity. exfalso. apply (ts_do_no_panic q r p D). }
   rewrite <- (spec_client_ext (accepts q) (genuine_bytes H q) rs 0).
   - destruct rs as [|r rest]; [congruence|]. unfold ts_client. apply ts_loop_complete. exact Hdom.
   - intros r Hin. unfold accepts. apply ts_do_rfc_ok; auto.
+Qed.
+
+(* the client never panics, whatever the authorities send *)
+Lemma ts_loop_no_panic q rs : forall i last p, fst (ts_loop H q rs i last) <> Panic p.
+Proof.
+  induction rs as [|r rest IH]; intros i last p.
+  - cbn. unfold final_is_error. discriminate.
+  - cbn [ts_loop]. destruct (ts_do H q r) as [s|e|p'] eqn:D.
+    + unfold loop_returns_token, failed, loop_success_returns_the_token. cbn. discriminate.
+    + unfold loop_returns_token, failed, loop_stops_on_ctx. cbn. destruct (r_ctx_dead r); [cbn; discriminate|].
+      specialize (IH (i + 1) e p). destruct (ts_loop H q rest (i + 1) e) as [x h]. exact IH.
+    + exfalso. apply (ts_do_no_panic q r p' D).
+Qed.
+Theorem client_never_panics q rs p : fst (ts_client H q rs) <> Panic p.
+Proof.
+  unfold ts_client. destruct rs as [|r rest].
+  - unfold empty_urls_is_error, empty_msurls_is_error, empty_named_is_error. cbn. discriminate.
+  - apply ts_loop_no_panic.
+Qed.
+
+(* a token without nonce counts as a nonce mismatch: an ordinary error, so the next authority is tried *)
+Theorem missing_nonce_is_mismatch q r :
+  q_legacy q = false -> st_nonce (r_stamp r) = None -> exists e, ts_do H q r = Err e.
+Proof.
+  intros Hleg Hn. destruct (ts_do H q r) as [s|e|p] eqn:D.
+  - assert (Hok : is_ok (ts_do H q r) = true) by (rewrite D; reflexivity).
+    rewrite (ts_do_rfc_ok q r Hleg) in Hok. unfold genuine_bytes, echoes in Hok. rewrite Hn in Hok.
+    rewrite andb_false_r in Hok. discriminate.
+  - eauto.
+  - exfalso. apply (ts_do_no_panic q r p D).
+Qed.
+
+(* a PKIStatus other than granted / grantedWithMods is never accepted *)
+Theorem status_outside_rejected q r :
+  q_legacy q = false -> r_status r <> 0 -> r_status r <> 1 -> is_ok (ts_do H q r) = false.
+Proof.
+  intros Hleg H0 H1. rewrite (ts_do_rfc_ok q r Hleg). unfold genuine_bytes, granted.
+  assert (E : (r_status r =? 0) || (r_status r =? 1) = false) by lia. rewrite E.
+  rewrite andb_false_r. reflexivity.
 Qed.
 
 (* all authorities fail => never Ok (in particular never an unstamped success); any style, any faults *)
@@ -235,11 +259,11 @@ Proof.
   specialize (Hall r (nth_error_In _ _ Hn)). unfold accepts in Hall. rewrite Hd in Hall. discriminate.
 Qed.
 Theorem all_fail_means_error_rfc q rs :
-  q_legacy q = false -> (forall r, In r rs -> 0 <= r_status r) ->
+  q_legacy q = false ->
   (forall r, In r rs -> genuine_bytes H q r = false) -> forall t, fst (ts_client H q rs) <> Ok t.
 Proof.
-  intros Hleg Hst Hall. apply all_fail_means_error. intros r Hin. unfold accepts.
-  rewrite (ts_do_rfc_ok q r Hleg (Hst r Hin)). apply Hall. exact Hin.
+  intros Hleg Hall. apply all_fail_means_error. intros r Hin. unfold accepts.
+  rewrite (ts_do_rfc_ok q r Hleg). apply Hall. exact Hin.
 Qed.
 
 (* ------------------------------------------------------------------ verification of a stamp *)
@@ -252,7 +276,8 @@ Proof.
   destruct (st_form st =? 0) eqn:F0.
   - assert (F1 : (st_form st =? 1) = false) by lia. rewrite F1.
     destruct (negb (st_nsigners st =? 1)); [discriminate|].
-    destruct (st_has_content st); cbn [negb]; [|discriminate].
+    unfold info_empty, content_len.
+    destruct (st_has_content st); cbn [negb Z.eqb]; [|discriminate].
     destruct (st_info_ok st); cbn [negb]; [|discriminate].
     destruct (known_alg (st_alg st)); cbn [negb bind]; [|discriminate].
     rewrite (bytes_eqb_sym (H (st_alg st) data)).
@@ -292,7 +317,8 @@ Proof.
   destruct (st_form st =? 0) eqn:F0.
   - assert (F1 : (st_form st =? 1) = false) by lia. rewrite F1.
     destruct (st_nsigners st =? 1); cbn [negb]; [|cbn; btauto].
-    destruct (st_has_content st); cbn [negb]; [|cbn; btauto].
+    unfold info_empty, content_len.
+    destruct (st_has_content st); cbn [negb Z.eqb]; [|cbn; btauto].
     destruct (st_info_ok st); cbn [negb]; [|cbn; btauto].
     destruct (known_alg (st_alg st)); cbn [negb bind]; [|cbn; btauto].
     rewrite (bytes_eqb_sym (H (st_alg st) data)).
@@ -308,6 +334,30 @@ Proof.
       destruct (bytes_eqb (st_hashed st) (H (st_alg st) data)); cbn [negb]; [|reflexivity].
       destruct (st_sig_ok st); cbn [negb]; [|reflexivity].
       destruct (st_time_ok st); reflexivity.
+Qed.
+
+Theorem verify_stamp_no_panic st data p : verify_stamp H st data <> Panic p.
+Proof.
+  unfold verify_stamp, imprint_verify.
+  destruct (st_form st =? 0).
+  - destruct (signer_count_bad (st_nsigners st)); [discriminate|].
+    destruct (info_empty (content_len st)); [discriminate|].
+    destruct (negb (st_info_ok st)); [discriminate|].
+    destruct (negb (known_alg (st_alg st))); cbn [bind]; [discriminate|].
+    destruct (imprint_verify_bad _ _); cbn [bind]; [discriminate|].
+    destruct (negb (st_sig_ok st)); [discriminate|]. destruct (negb (st_time_ok st)); discriminate.
+  - destruct (st_form st =? 1).
+    + destruct (negb (st_has_content st && st_sig_ok st)); [discriminate|].
+      destruct (ms_content_bad _ _); [discriminate|]. destruct (negb (st_time_ok st)); discriminate.
+    + destruct (negb (known_alg (st_alg st))); [discriminate|].
+      destruct (negb (bytes_eqb _ _)); [discriminate|].
+      destruct (negb (st_sig_ok st)); [discriminate|]. destruct (negb (st_time_ok st)); discriminate.
+Qed.
+(* a token without attached content is rejected with an ordinary error *)
+Theorem detached_token_is_error st data :
+  st_form st = 0 -> st_nsigners st = 1 -> st_has_content st = false -> verify_stamp H st data = Err E_INFO.
+Proof.
+  intros Hf Hn Hc. unfold verify_stamp, signer_count_bad, info_empty, content_len. rewrite Hf, Hn, Hc. reflexivity.
 Qed.
 
 Lemma verify_stamp_time st data t : verify_stamp H st data = Ok t -> t = st_time st.
@@ -345,6 +395,17 @@ Proof.
     destruct (verify_stamp H st (s_value s)) as [t|e|p] eqn:V; cbn [bind is_ok andb]; try reflexivity.
     rewrite (verify_stamp_time _ _ _ V), verify_chain_some, (eff_time_nz _ now Hnz), !chain_ok_window. btauto.
   - rewrite verify_chain_none, chain_ok_window. reflexivity.
+Qed.
+
+Theorem verify_never_panics now s p : verify_all H now s <> Panic p.
+Proof.
+  unfold verify_all, verify_chain. destruct (s_stamp s) as [st|].
+  - destruct (verify_stamp H st (s_value s)) as [t|e|p'] eqn:V; cbn [bind]; try discriminate.
+    + destruct (vc_has_countersig true).
+      * destruct (negb _); [destruct vc_bad_tsa_chain_is_error; discriminate|]. destruct (chain_ok _ _); discriminate.
+      * destruct (chain_ok _ _); discriminate.
+    + exfalso. apply (verify_stamp_no_panic st (s_value s) p' V).
+  - destruct (vc_has_countersig false); [discriminate|]. destruct (chain_ok _ _); discriminate.
 Qed.
 
 Theorem expired_needs_timestamp now s :
@@ -438,12 +499,6 @@ Definition w_stamp (id : Z) (nonce : option Z) (alg : Z) : stamp :=
 Definition w_reply (t : stamp) (status : Z) : reply := mkReply true 200 true 0 status t false.
 Definition w_good : reply := w_reply (w_stamp 1 (Some 7) 3) 0.
 
-(* F18a: a granted, well-signed reply without a nonce makes the client panic although the next authority is genuine *)
-Theorem missing_nonce_panics_refuted :
-  exists q rs, q_legacy q = false /\
-    spec_client (genuine Hsym q) rs 0 = (Some (r_stamp w_good), [0; 1]) /\
-    ts_client Hsym q rs = (Panic P_NIL, [0]).
-Proof. exists w_req, [w_reply (w_stamp 0 None 3) 0; w_good]. vm_compute. auto. Qed.
 
 (* the imprint's algorithm identifier is not compared: a token labelled with another algorithm is accepted *)
 Theorem alg_label_unchecked_refuted :
@@ -468,14 +523,6 @@ Proof.
   repeat split; try (vm_compute; reflexivity). intros r [Hr|[]]. subst r. vm_compute. reflexivity.
 Qed.
 
-(* a negative PKIStatus passes `Status > StatusGrantedWithMods` *)
-Theorem negative_status_refuted :
-  exists q rs t hits, q_legacy q = false /\ ts_client Hsym q rs = (Ok t, hits) /\
-    (forall r, In r rs -> genuine Hsym q r = false).
-Proof.
-  exists w_req, [w_reply (w_stamp 0 (Some 7) 3) (-1)], (w_stamp 0 (Some 7) 3), [0].
-  repeat split; try (vm_compute; reflexivity). intros r [Hr|[]]. subst r. vm_compute. reflexivity.
-Qed.
 
 (* F18b: the legacy reply is not checked by the client, so a bad token stops the failover; the attach step rejects it
    and signing fails although the second authority is genuine *)
@@ -500,13 +547,6 @@ Proof.
   vm_compute. auto.
 Qed.
 
-(* verification of a token without attached TSTInfo panics (index out of range) instead of rejecting *)
-Theorem detached_token_panics_refuted :
-  exists now s, verify_all Hsym now s = Panic P_INDEX.
-Proof.
-  exists 150, (mkSig [1; 2; 3] w_cert (Some (mkStamp 0 0 1 false true true None 3 (Hsym 3 [1; 2; 3]) 150 true w_cert))).
-  vm_compute. reflexivity.
-Qed.
 
 (* call orders the hand-written model relies on *)
 Lemma orders_as_modelled :
